@@ -314,7 +314,7 @@ func main() {
 	total := nA * nS * nS
 	nStride, nSample, nRandom := 2200, 1200, 1400
 	if cfg.Thorough() {
-		nStride, nSample, nRandom = 90000, 30000, 40000
+		nStride, nSample, nRandom = 60000, 20000, 20000
 	}
 	w.Extra["exhaustive_scope"] = fmt.Sprintf("scope of %d ancestors x %d alphas x %d betas (names {a,b}/{c}, depth <= 2, every entry kind) = %d triples per mode; this run walks %d of them with a seed-dependent stride, in modes %v", nA, nS, nS, total, nStride, modes)
 	// a stride coprime with the size of the scope visits distinct triples
